@@ -368,7 +368,35 @@ Qed.
 
 Lemma st_create_table_inv s name fds : SInv s -> SInv (fst (st_create_table s name fds)).
 Proof.
-  intros H. unfold st_create_table. destruct (names_distinct _); [apply st_create_table0_inv; exact H | exact H].
+  intros H. unfold st_create_table. destruct (names_distinct _); [|exact H].
+  destruct (create_bad_rows s name fds); [exact H | apply st_create_table0_inv; exact H].
+Qed.
+
+(* the catalog-row check only ever refuses *)
+Lemma create_bad_rows_not_ok s name fds u : create_bad_rows s name fds <> Some (Ok u).
+Proof.
+  unfold create_bad_rows. destruct (rel_offset s name) as [o|[]|]; try discriminate.
+  destruct (check_catalog_rows name fds); discriminate.
+Qed.
+
+Lemma st_create_table_ok_inv s name fds s' u :
+  st_create_table s name fds = (s', Ok u) ->
+  names_distinct (map fd_name fds) = true /\ create_bad_rows s name fds = None /\
+  st_create_table0 s name fds = (s', Ok u).
+Proof.
+  unfold st_create_table. destruct (names_distinct _); [|discriminate].
+  destruct (create_bad_rows s name fds) as [r|] eqn:E; [|auto].
+  intros H. inversion H; subst. exfalso. eapply create_bad_rows_not_ok; eauto.
+Qed.
+
+(* a refusal by the catalog-row check, or st_create_table0 *)
+Lemma st_create_table_cases s name fds :
+  st_create_table s name fds = st_create_table0 s name fds \/
+  (fst (st_create_table s name fds) = s /\ forall u, snd (st_create_table s name fds) <> Ok u).
+Proof.
+  unfold st_create_table. destruct (names_distinct _); [|right; cbn; split; [reflexivity | discriminate]].
+  destruct (create_bad_rows s name fds) as [r|] eqn:E; [|left; reflexivity].
+  right. cbn [fst snd]. split; [reflexivity|]. intros u ->. eapply create_bad_rows_not_ok; eauto.
 Qed.
 
 Lemma insert_rows_inv rows : forall s name cols batch n,
@@ -404,10 +432,12 @@ Proof.
   - pose proof (st_create_table_inv s name (map fielddef_of cols) H) as H1.
     destruct (st_create_table s name (map fielddef_of cols)) as [s1 [u|e|]]; cbn [fst e_store] in *; try exact H1.
     apply flush_inv. exact H1.
-  - pose proof (insert_rows_inv rows s table cols [] 0%nat H) as H1.
+  - destruct (first_err _ rows) as [u|e|]; cbn [e_store]; try exact H.
+    pose proof (insert_rows_inv rows s table cols [] 0%nat H) as H1.
     destruct (insert_rows s table cols rows [] 0) as [[s1 b] o]. exact H1.
   - destruct (existsb _ sets); [exact H|].
     destruct (where_ids s table where_) as [ids|e|]; cbn [e_store]; try exact H.
+    destruct (first_err _ ids) as [u|e|]; cbn [e_store]; try exact H.
     pose proof (update_rows_inv ids s table (map fst sets)
                  (map (fun sv => match snd sv with XLit v => v | _ => VNull end) sets) [] H) as H1.
     destruct (update_rows s table _ _ ids []) as [[s1 b] o]. exact H1.
